@@ -246,6 +246,40 @@ pub fn run_src(env: &Rc<RefCell<Env>>, src: &str) -> Value {
     }
 }
 
+/// As `run_src`, but the way the command-line interpreter (src/main.rs) runs a program: the parsed
+/// program first goes through `noulith::warn` (the static name-resolution pass: `freeze` with the
+/// warn flag over the whole program, which panics if the pass refuses the program), then `evaluate`.
+pub fn run_src_cli(env: &Rc<RefCell<Env>>, src: &str) -> Value {
+    let env2 = Rc::clone(env);
+    let src2 = src.to_string();
+    let r = std::panic::catch_unwind(std::panic::AssertUnwindSafe(move || {
+        match parse(&src2) {
+            Ok(Some(ex)) => {
+                let ex = noulith::warn(&env2, &ex);
+                match evaluate(&env2, &ex) {
+                    Ok(o) => json!({"status": "ok", "val": canon(&o)}),
+                    Err(e) => nerr_to_json(&e),
+                }
+            }
+            Ok(None) => json!({"status": "empty"}),
+            Err(pe) => json!({"status": "parse", "msg": pe.render(&src2)}),
+        }
+    }));
+    match r {
+        Ok(v) => v,
+        Err(p) => {
+            let msg = if let Some(s) = p.downcast_ref::<String>() {
+                s.clone()
+            } else if let Some(s) = p.downcast_ref::<&str>() {
+                s.to_string()
+            } else {
+                "?".to_string()
+            };
+            json!({"status": "panic", "msg": msg})
+        }
+    }
+}
+
 pub fn quiet_panics() {
     std::panic::set_hook(Box::new(|_| {}));
 }
